@@ -13,7 +13,8 @@ From Coq Require Import String.
 From Coq Require Import List Arith ZArith Bool.
 Import ListNotations.
 Require Import MD.Sched.ParFor MD.Sched.Proofs MD.Sched.Scratch MD.Sched.ScratchProofs MD.Sched.Kernels MD.Sched.KernelProofs.
-Require Import MD.Sasa.Model MD.Sasa.Proofs MD.Gen.SchedSasa.
+Require Import MD.Sched.FrameLoop MD.Sched.FrameLoopProofs.
+Require Import MD.Sasa.Model MD.Sasa.Proofs MD.Gen.SchedSasa MD.Gen.SchedKernels.
 Open Scope Z_scope.
 
 (* ---- the general statement ---- *)
@@ -115,6 +116,44 @@ Print Assumptions sasa_skeleton_abstracts_model.
 Theorem sasa_source_loop_classified : ok_prog sasa_prog = true \/ sasa_prog = sasa_cur_prog.
 Proof. exact sasa_prog_classified. Qed.
 Print Assumptions sasa_source_loop_classified.
+
+(* ---- serial frame loops with carried pointers (dssp, kabsch_sander, distance/angle/dihedral kernels, centering) ---- *)
+(* A loop body over scratch cells and self-advanced cursors that (a) never reads a cell before writing it in the same
+   iteration and (b) advances every cursor it uses exactly once per iteration, after the last use, leaves at output
+   position j exactly what it writes when run on frame j alone, from any scratch. *)
+Theorem frame_loop_local : forall G A p, fdisc p = true -> forall n s0 s0' j, (j < n)%nat ->
+  writes_at j (floop G A p n 0 (s0, [])) = map snd (snd (frun G (shift A j) p 0 (s0', []))).
+Proof. exact FrameLoopProofs.frame_loop_local. Qed.
+Print Assumptions frame_loop_local.
+
+(* the terms regenerated in THIS run from dssp.cpp, geometry.cpp, kernels/*.h, center_sse.h, neighbors.cpp,
+   dridkernels.cpp and moments.cpp all obey the discipline ... *)
+Theorem mdtraj_frame_loops_disciplined : forallb (fun k => fdisc (snd k)) scanned_kernels = true.
+Proof. exact scanned_kernels_disciplined. Qed.
+Print Assumptions mdtraj_frame_loops_disciplined.
+
+(* ... hence each of them is frame-local in the sense above ... *)
+Theorem mdtraj_frame_loops_local : forall name p, In (name, p) scanned_kernels ->
+  forall G A n s0 s0' j, (j < n)%nat ->
+  writes_at j (floop G A p n 0 (s0, [])) = map snd (snd (frun G (shift A j) p 0 (s0', []))).
+Proof.
+  intros name p Hin G A. apply (FrameLoopProofs.frame_loop_local G A p).
+  exact (proj1 (forallb_forall _ _) scanned_kernels_disciplined (name, p) Hin).
+Qed.
+Print Assumptions mdtraj_frame_loops_local.
+
+(* ... and the kernels called once per frame / per atom write no static or file-scope state *)
+Theorem percall_kernels_keep_no_state : percall_static_written = [].
+Proof. exact percall_kernels_stateless. Qed.
+Print Assumptions percall_kernels_keep_no_state.
+
+(* a loop that stops advancing a pointer it reads through, or reads a buffer before refilling it, is rejected *)
+Example undisciplined_loops_rejected :
+  (fdisc [FSet 1 (FVia 0 0); FOutVia 1 (FCell 1); FAdv 1] = false) /\
+  (fdisc [FSet 1 (FAdd (FCell 1) (FIdx 0)); FOutIdx (FCell 1)] = false) /\
+  (fdisc [FSet 1 (FVia 0 0); FOutVia 1 (FCell 1); FAdv 1; FAdv 0] = true).
+Proof. repeat split. Qed.
+Print Assumptions undisciplined_loops_rejected.
 
 (* ---- non-vacuity ---- *)
 Example schedules_exist :
